@@ -16,9 +16,10 @@
 //! addfile    e<x> f<j>   -> ok | err [ItemDeleted|ParentElementLocked]    (Element::add_to_file)
 //! rmfromfile e<x> f<j>   -> ok | err [ItemDeleted|ParentElementLocked]    (Element::remove_from_file)
 //! rmfile     m<k> f<j>   -> ok                                            (AutosarModel::remove_file; no id is reused)
-//! load       m<k> <name-hex> <strict 0|1> <document-hex> -> ok f<j> w<number of warnings> e<new ids in document order> | err
+//! load       m<k> <name-hex> <strict 0|1> <document-hex> -> ok f<j> w<n> <kind@line,…|-> e<new ids in document order> | err P<kind>@<line> | err L<kind>@<line> | err <Kind>
 //!                                                                          (AutosarModel::load_buffer; merges into the model)
 //! setver     f<j> <version-bit> -> ok | err                                (ArxmlFile::set_version)
+//! ser        f<j>        -> ok <text-hex> | err                            (ArxmlFile::serialize; rewrites xsi:schemaLocation of the root)
 //! compat     f<j> <version-bit> -> ok <mask> <A:e<id>:<attr>:<mask> | V:… | E:e<id>:<mask>, …  or ->   (query: check_version_compatibility)
 //! ```
 //! All three are state-changing (a `dump` follows them in the quick tier).  `f<j>` of a removed file stays a valid
@@ -87,6 +88,41 @@ fn errs(e: &AutosarDataError) -> String {
     }
 }
 
+/// the variants of `ArxmlParserError` in declaration order (the Lean model numbers its error kinds alike)
+const PARSER_KINDS: [&str; 27] = [
+    "InvalidArxmlFileHeader", "UnexpectedXmlFileHeader", "UnknownAutosarVersion", "InvalidAutosarVersion", "IncorrectBeginElement",
+    "InvalidBeginElement", "IncorrectEndElement", "InvalidEndElement", "ElementChoiceConflict", "ElementVersionError", "TooManySubElements",
+    "RequiredSubelementMissing", "AttributeValueError", "UnknownAttributeError", "AttributeVersionError", "RequiredAttributeMissing",
+    "CharacterContentForbidden", "EnumItemVersionError", "UnknownEnumItem", "InvalidEnumItem", "StringValueTooLong", "RegexMatchError",
+    "Utf8Error", "UnexpectedEndOfFile", "InvalidNumber", "AdditionalDataError", "InvalidXmlEntity",
+];
+const LEXER_KINDS: [&str; 5] = ["IncompleteData", "InvalidElement", "InvalidProcessingInstruction", "InvalidXmlHeader", "InvalidComment"];
+
+fn first_ident(s: &str) -> String {
+    s.chars().take_while(|c| c.is_alphanumeric()).collect()
+}
+
+/// `P<kind>@<line>` for a parser error, `L<kind>@<line>` for a tokenizer error, the name of the variant otherwise
+pub fn load_err(e: &AutosarDataError) -> String {
+    match e {
+        AutosarDataError::ParserError { line, source, .. } => {
+            let name = first_ident(&format!("{source:?}"));
+            match PARSER_KINDS.iter().position(|k| *k == name) {
+                Some(i) => format!("P{i}@{line}"),
+                None => format!("P?{name}@{line}"),
+            }
+        }
+        AutosarDataError::LexerError { line, source, .. } => {
+            let name = first_ident(&format!("{source:?}"));
+            match LEXER_KINDS.iter().position(|k| *k == name) {
+                Some(i) => format!("L{i}@{line}"),
+                None => format!("L?{name}@{line}"),
+            }
+        }
+        other => first_ident(&format!("{other:?}")),
+    }
+}
+
 fn text_of(h: &str) -> Option<String> {
     String::from_utf8(unhex(h)?).ok()
 }
@@ -136,7 +172,7 @@ fn handle(w: &str, c: char) -> Option<usize> {
 pub fn handle_positions(verb: &str) -> &'static [usize] {
     match verb {
         "remove" | "setref" | "move" | "copy" | "#twin" => &[1, 2],
-        "reset" | "newmodel" | "mkfile" | "sortm" | "lookup" | "refs" | "checkrefs" | "dump" | "rmfile" | "#dup" | "compat" | "setver" | "load" => &[],
+        "reset" | "newmodel" | "mkfile" | "sortm" | "lookup" | "refs" | "checkrefs" | "dump" | "rmfile" | "#dup" | "compat" | "setver" | "load" | "ser" => &[],
         _ => &[1],
     }
 }
@@ -145,7 +181,7 @@ pub fn is_mutating(verb: &str) -> bool {
     matches!(
         verb,
         "reset" | "newmodel" | "mkfile" | "create" | "named" | "remove" | "rename" | "cdata" | "rmcdata" | "instext" | "rmtext" | "setref" | "attr"
-            | "attrs" | "rmattr" | "move" | "copy" | "sort" | "sortm" | "comment" | "addfile" | "rmfromfile" | "rmfile" | "setver" | "load"
+            | "attrs" | "rmattr" | "move" | "copy" | "sort" | "sortm" | "comment" | "addfile" | "rmfromfile" | "rmfile" | "setver" | "load" | "ser"
     )
 }
 
@@ -381,7 +417,8 @@ impl World {
                     Ok((f, warnings)) => {
                         self.files.push(f);
                         let j = self.files.len() - 1;
-                        let mut s = format!("ok f{j} w{}", warnings.len());
+                        let wl: Vec<String> = warnings.iter().map(|w| load_err(w).trim_start_matches('P').to_string()).collect();
+                        let mut s = format!("ok f{j} w{} {}", warnings.len(), if wl.is_empty() { "-".to_string() } else { wl.join(",") });
                         let all: Vec<Element> = m.elements_dfs().map(|(_, e)| e).collect();
                         for e in all {
                             if !self.ids.contains_key(&e) {
@@ -396,9 +433,15 @@ impl World {
                     }
                     Err(e) => {
                         let base = errs(&e);
-                        let kind: String = format!("{e:?}").chars().take_while(|c| c.is_alphanumeric()).collect();
-                        if base == "err" { format!("err {kind}") } else { base }
+                        if base == "err" { format!("err {}", load_err(&e)) } else { base }
                     }
+                }
+            }
+            "ser" if n == 2 => {
+                let f = self.h_file(w[1])?;
+                match f.serialize() {
+                    Ok(t) => format!("ok {}", hx(&t)),
+                    Err(_) => "err".to_string(),
                 }
             }
             "setver" if n == 3 => {
@@ -2019,6 +2062,7 @@ struct Gen {
     /// restricts the handle pools to the subtree of this element (copy kind: edits inside a copy / its source)
     scope: Option<usize>,
     allow_collision: bool,
+    allow_load: bool,
     allow_ancestor: bool,
     allow_mixed: bool,
     allow_rmself: bool,
@@ -2868,7 +2912,7 @@ impl Gen {
     /// another version) is loaded into the model as a further file: overlapping partial views, merged by load_buffer
     fn op_load(&mut self) {
         let mf = self.model_files(0);
-        if mf.is_empty() {
+        if mf.is_empty() || !self.allow_load {
             return;
         }
         // both sides in canonical order: the positional merge of load_buffer duplicates shared elements when sibling kinds
@@ -3032,6 +3076,12 @@ impl Gen {
                 let n = if !valid.is_empty() && self.rng.chance(4, 5) { valid[self.rng.below(valid.len())] } else { [ElementName::ArPackage, ElementName::Elements, ElementName::Category, ElementName::ShortName][self.rng.below(4)] };
                 self.req(format!("range e{p} {}", id16(n)));
                 self.req(format!("valid e{p}"));
+            }
+        }
+        // the text of every file (C01): `serialize` also rewrites the schema location of the root, hence a state change
+        for k in 0..self.ck.w.models.len() {
+            for f in self.model_files(k) {
+                self.m(format!("ser f{f}"));
             }
         }
         // version compatibility (C17): every file against a few target versions; sometimes the version is changed
@@ -3227,6 +3277,32 @@ impl Gen {
     }
 }
 
+/// the world-protocol requests for one document and the library's answers: a fresh model per mode, `load`, the state,
+/// the text of the file and the state again (scenarios `docs` and `c02` put them into their request stream so that the Lean
+/// parser / serializer model answers them too)
+pub fn doc_lines(bytes: &[u8], with_dump: bool) -> Vec<(String, String)> {
+    let mut out = vec![];
+    for strict in [true, false] {
+        let mut w = World::new();
+        let mut reqs = vec!["reset".to_string(), "newmodel".to_string(), format!("load m0 {} {} {}", hx("d.arxml"), strict as u8, hex(bytes))];
+        if with_dump {
+            reqs.extend(["dump".to_string(), "ser f0".to_string(), "dump".to_string()]);
+        }
+        for r in reqs {
+            let a = match catch_unwind(AssertUnwindSafe(|| w.exec(&r))) {
+                Ok(a) => a,
+                Err(_) => "panic".to_string(),
+            };
+            let stop = r.starts_with("load") && !a.starts_with("ok");
+            out.push((r, a));
+            if stop {
+                break;
+            }
+        }
+    }
+    out
+}
+
 // ------------------------------------------------------------------------------------------------
 // 4. the scenario
 // ------------------------------------------------------------------------------------------------
@@ -3238,6 +3314,7 @@ fn spawn_history(seed: u64, kind: Kind, thorough: bool, prop: Option<String>) ->
         let mut rng = Rng::new(seed);
         let mut flag = |pct: u64| rng.chance(pct, 1000);
         let (a, b, c, d, e, f, f2, f3, f4) = (flag(15), flag(15), flag(15), flag(7), flag(15), flag(12), flag(12), flag(12), flag(12));
+        let with_load = flag(500);
         sh2.lock().unwrap().flags = [(a, "collision"), (b, "ancestor-move"), (c, "mixed-cdata"), (d, "remove-self"), (e, "dangling-rename"), (f, "last-file"), (f2, "stale-file"), (f3, "root-attr"), (f4, "split-move")].iter().filter(|x| x.0).map(|x| x.1).collect::<Vec<_>>().join("+");
         let mut g = Gen {
             rng,
@@ -3250,6 +3327,7 @@ fn spawn_history(seed: u64, kind: Kind, thorough: bool, prop: Option<String>) ->
             stats: BTreeMap::new(),
             scope: None,
             allow_collision: a,
+            allow_load: with_load,
             allow_ancestor: b,
             allow_mixed: c,
             allow_rmself: d,
